@@ -637,7 +637,7 @@ def replay(case):
 
 
 MANIFEST = {
-    "text": "Exploration by runtime monitoring: on tables reached by generated histories every getter family is called with coordinates aimed at repeated runs, range starts on the last item of a run, edges and beyond; the monitor compares the stamped coordinates, values and counts with the model, requires expanded reads to carry no repeat attribute and the read to leave the table byte-identical, then mutates one returned object and requires the table and every other returned object to stay byte-identical. Reads of empty tables and rows in every position form (also negative plain ints) must return empty objects without raising or growing anything. Held = no scenario violated on those observed.",
+    "text": "Exploration by runtime monitoring: on tables reached by generated histories every getter family is called with coordinates aimed at repeated runs, range starts on the last item of a run, edges and beyond; the monitor compares the stamped coordinates, values and counts with the model, requires expanded reads to carry no repeat attribute and the read to leave the table byte-identical, then mutates one returned object and requires the table and every other returned object to stay byte-identical. Reads of empty tables and rows in every position form (also negative plain ints) must return empty objects without raising or growing anything. Held = no scenario violated on those observed. Also: generators of copies drained while each yielded copy is edited before the next is asked for; column declarations inside header / column groups.",
     "note": "Trusted: O-GRID for the expected coordinates/values; 'documented as a copy' is read from the docstrings (default arguments). Single-item getters may keep a repeat attribute (documented keep_repeated default).",
     "technique": "runtime monitoring: post-condition monitor on getter results + before/after digests around mutations of returned objects",
 }
